@@ -5,6 +5,8 @@ mod broker;
 mod tls;
 
 pub use broker::{Broker, LinkType, Server};
+#[cfg(rumqtt_verif)]
+pub use broker::verif_hooks;
 
 // pub trait IO: AsyncRead + AsyncWrite + Send + Sync + Unpin {}
 // impl<T: AsyncRead + AsyncWrite + Send + Sync + Unpin> IO for T {}
